@@ -373,7 +373,7 @@ Definition in_domain (c : call) : bool :=
       not_nil (c_seq c) && ((c_nseq c =? 1)%nat || not_nil (c_seq2 c)) && not_test_not (c_test c)
   | FSome =>
       not_nil (c_seq c) && ((c_nseq c =? 1)%nat || not_nil (c_seq2 c)) && not_test_not (c_test c) &&
-      (negb (c_flag c) || negb (existsb (pred_app (c_pred c)) l1))               (* KF some returns t *)
+      (negb (c_flag c) || ((c_nseq c =? 1)%nat && negb (existsb (pred_app (c_pred c)) l1)))   (* KF some returns t *)
   | FMap => not_nil (c_seq c) && ((c_nseq c =? 1)%nat || not_nil (c_seq2 c))
   | FMapcar => is_list (c_seq c) && not_nil (c_seq c) && ((c_nseq c =? 1)%nat || (is_list (c_seq2 c) && not_nil (c_seq2 c)))
   | FReduce =>
@@ -382,3 +382,17 @@ Definition in_domain (c : call) : bool :=
       (negb (s_start c =? s_end c l1)%nat || match c_init c with Some _ => true | None => false end)   (* KF (reduce '+ '()) *)
   | FConcatenate => true
   end.
+
+(* ---- the same call on another representation of its sequences --------------------------------------------- *)
+Inductive repform := AsNil | AsList | AsVec | AsStr.
+(* AsNil: like AsList, but an empty sequence is written nil (the Go nil) instead of '() *)
+Definition in_form (f : repform) (s : seqin) : seqin :=
+  match f with
+  | AsNil => match elems s with [] => SNil | l => SList l end
+  | AsList => SList (elems s) | AsVec => SVec (elems s) | AsStr => SStr (elems s)
+  end.
+Definition with_form (f : repform) (c : call) : call :=
+  mkCall (c_fn c) (c_item c) (c_new c) (c_pred c) (in_form f (c_seq c)) (in_form f (c_seq2 c))
+         (c_start c) (c_end c) (c_end_nil c) (c_start2 c) (c_end2 c) (c_key c) (c_test c) (c_count c) (c_from_end c)
+         (c_op c) (c_init c) (c_nseq c) (c_flag c).
+
